@@ -375,79 +375,487 @@ Proof.
 Qed.
 
 (* ---- complement ---- *)
+(* ---- clear_excessive_bits ---- *)
+Lemma existsb_seqN : forall j s n,
+  existsb (N.eqb j) (seqN s n) = (s <=? j) && (j <? s + N.of_nat n).
+Proof.
+  intros j s n. apply Bool.eq_iff_eq_true.
+  rewrite existsb_exists, andb_true_iff, N.leb_le, N.ltb_lt. split.
+  - intros [x [Hin Heq]]. apply N.eqb_eq in Heq; subst x. apply In_seqN in Hin. lia.
+  - intros H. exists j. split; [apply In_seqN; lia|apply N.eqb_refl].
+Qed.
+
+Lemma get_pre_set : forall v i b k, get_pre (set v i b) k = get_pre v k.
+Proof. intros v i b k; unfold get_pre. rewrite nwords_set. reflexivity. Qed.
+
+Lemma get_fold_clear : forall l v j,
+  (forall i, In i l -> get_pre v i = true) ->
+  get (fold_left (fun acc i => set acc i false) l v) j =
+  get v j && negb (existsb (N.eqb j) l).
+Proof.
+  induction l as [|i l IH]; intros v j Hpre; cbn [fold_left existsb].
+  - rewrite andb_true_r; reflexivity.
+  - rewrite IH.
+    + rewrite get_set by (apply Hpre; left; reflexivity).
+      destruct (j =? i); cbn [orb negb andb]; rewrite ?andb_false_r; reflexivity.
+    + intros k Hk. rewrite get_pre_set. apply Hpre; right; exact Hk.
+Qed.
+
+Lemma fold_clear_wf : forall l v,
+  svob_wf v -> svob_wf (fold_left (fun acc i => set acc i false) l v).
+Proof.
+  induction l as [|i l IH]; intros v Hwf; cbn [fold_left]; [exact Hwf|].
+  apply IH, set_wf, Hwf.
+Qed.
+
+Lemma fold_clear_vsize : forall l v,
+  vsize (fold_left (fun acc i => set acc i false) l v) = vsize v.
+Proof.
+  induction l as [|i l IH]; intros v; cbn [fold_left]; [reflexivity|].
+  rewrite IH. apply vsize_set.
+Qed.
+
+Lemma get_ceb : forall v j,
+  get (clear_excessive_bits v) j = (j <? vsize v) && get v j.
+Proof.
+  intros v j. unfold clear_excessive_bits. rewrite get_fold_clear.
+  - rewrite existsb_seqN.
+    destruct (get_pre v j) eqn:Hp.
+    + rewrite get_pre_cap in Hp. apply N.ltb_lt in Hp.
+      destruct (get v j); cmp_cases.
+    + rewrite (get_no_pre v j Hp). rewrite andb_false_r. reflexivity.
+  - intros i Hi. apply In_seqN in Hi. rewrite get_pre_cap. apply N.ltb_lt. lia.
+Qed.
+
+Lemma ceb_wf : forall v, svob_wf v -> svob_wf (clear_excessive_bits v).
+Proof. intros v H. apply fold_clear_wf, H. Qed.
+
+Lemma vsize_ceb : forall v, vsize (clear_excessive_bits v) = vsize v.
+Proof. intros v. apply fold_clear_vsize. Qed.
+
+Lemma nth_map0 : forall (f : N -> N) l k,
+  (k < length l)%nat -> nth k (map f l) 0 = f (nth k l 0).
+Proof.
+  intros f l k Hk. rewrite (nth_indep _ 0 (f 0)) by (rewrite map_length; exact Hk).
+  apply map_nth.
+Qed.
+
 Lemma get_negated : forall v j,
   svob_wf v -> get (negated v) j = (j <? vsize v) && negb (get v j).
-Proof. Admitted.
+Proof.
+  intros v j [HF Hc]. unfold negated. rewrite get_ceb. cbn [vsize].
+  destruct (N.ltb_spec j (vsize v)) as [L|G]; cbn [andb]; [|reflexivity].
+  rewrite get_words, get_unfold. unfold cap_bits, nwords, lenN in Hc.
+  rewrite nth_map0 by dlia.
+  rewrite not32_bit. pose proof (mod32_lt j) as Hjm. apply N.ltb_lt in Hjm. rewrite Hjm.
+  apply xorb_true_r.
+Qed.
 Lemma negated_wf : forall v, svob_wf v -> svob_wf (negated v).
-Proof. Admitted.
+Proof.
+  intros v [HF Hc]. apply ceb_wf. split; cbn [words vsize].
+  - apply Forall_forall. intros x Hx. apply in_map_iff in Hx. destruct Hx as [y [Hy Hin]]. subst x.
+    apply not32_lt. rewrite Forall_forall in HF. apply HF; exact Hin.
+  - unfold cap_bits, nwords, lenN in *; cbn [words]. rewrite map_length. exact Hc.
+Qed.
 Lemma get_alloc_ones : forall n j, get (alloc_ones n) j = (j <? n).
-Proof. Admitted.
+Proof.
+  intros n j. unfold alloc_ones, set_all. rewrite get_ceb. cbn [vsize]. rewrite vsize_alloc.
+  destruct (N.ltb_spec j n) as [L|G]; cbn [andb]; [|reflexivity].
+  rewrite get_words. pose proof (nwords_alloc n) as Hn. unfold nwords, lenN, div_ceil32 in Hn.
+  rewrite nth_map0 by dlia.
+  rewrite ones32_bit. apply N.ltb_lt, mod32_lt.
+Qed.
 
 (* ---- binary operations: raw (zip) semantics ---- *)
+(* ---- zip ---- *)
+Lemma nth_zip_with : forall f a b k,
+  nth k (zip_with f a b) 0 =
+  if (k <? length a)%nat then
+    if (k <? length b)%nat then f (nth k a 0) (nth k b 0) else nth k a 0
+  else 0.
+Proof.
+  intros f a; induction a as [|x a IH]; intros b k.
+  - destruct b; destruct k; reflexivity.
+  - destruct b as [|y b].
+    + cbn [zip_with]. destruct (Nat.ltb_spec k (length (x :: a))) as [L|G].
+      * destruct k; reflexivity.
+      * apply nth_overflow; exact G.
+    + destruct k as [|k]; [reflexivity|]. cbn [zip_with nth]. rewrite IH. reflexivity.
+Qed.
+
+Lemma nth_zip_with3 : forall f a b c k,
+  nth k (zip_with3 f a b c) 0 =
+  if ((k <? length a) && (k <? length b) && (k <? length c))%nat
+  then f (nth k a 0) (nth k b 0) (nth k c 0) else nth k a 0.
+Proof.
+  intros f a; induction a as [|x a IH]; intros b c k.
+  - cbn [zip_with3]. destruct k; reflexivity.
+  - destruct b as [|y b].
+    + cbn [zip_with3 length]. rewrite andb_false_r. reflexivity.
+    + destruct c as [|z c].
+      * cbn [zip_with3 length]. rewrite andb_false_r. reflexivity.
+      * destruct k as [|k]; [reflexivity|]. cbn [zip_with3 nth]. rewrite IH. reflexivity.
+Qed.
+
+Lemma get_over : forall v j, (length (words v) <= N.to_nat (j / 32))%nat -> get v j = false.
+Proof.
+  intros v j H. rewrite get_unfold, nth_overflow by exact H. apply N.bits_0.
+Qed.
+
 Lemma get_vor_raw : forall v o j, get (vor v o) j = get v j || (get o j && get_pre v j).
-Proof. Admitted.
+Proof.
+  intros v o j. unfold vor. rewrite get_words, nth_zip_with.
+  destruct (Nat.ltb_spec (N.to_nat (j / 32)) (length (words v))) as [La|Ga].
+  - rewrite (proj2 (get_pre_lt v j) La), andb_true_r.
+    destruct (Nat.ltb_spec (N.to_nat (j / 32)) (length (words o))) as [Lb|Gb].
+    + rewrite N.lor_spec. reflexivity.
+    + rewrite (get_over o j Gb), orb_false_r. reflexivity.
+  - rewrite (get_over v j Ga). rewrite N.bits_0.
+    destruct (get_pre v j) eqn:Hp; [apply get_pre_lt in Hp; lia|].
+    rewrite andb_false_r. reflexivity.
+Qed.
 Lemma get_vand_raw : forall v o j,
   get (vand v o) j = get v j && (get o j || negb (get_pre o j)).
-Proof. Admitted.
+Proof.
+  intros v o j. unfold vand. rewrite get_words, nth_zip_with.
+  destruct (Nat.ltb_spec (N.to_nat (j / 32)) (length (words v))) as [La|Ga].
+  - destruct (Nat.ltb_spec (N.to_nat (j / 32)) (length (words o))) as [Lb|Gb].
+    + rewrite (proj2 (get_pre_lt o j) Lb). cbn [negb]. rewrite orb_false_r, N.land_spec. reflexivity.
+    + rewrite (get_over o j Gb).
+      destruct (get_pre o j) eqn:Hp; [apply get_pre_lt in Hp; lia|].
+      cbn [negb orb]. rewrite andb_true_r. reflexivity.
+  - rewrite (get_over v j Ga), N.bits_0. reflexivity.
+Qed.
+Lemma testbit_not32_mod : forall w j, N.testbit (not32 w) (j mod 32) = negb (N.testbit w (j mod 32)).
+Proof.
+  intros w j. rewrite not32_bit. pose proof (mod32_lt j) as H. apply N.ltb_lt in H. rewrite H.
+  apply xorb_true_r.
+Qed.
+
 Lemma get_vsub_raw : forall v o j,
   get (vsub v o) j = get v j && negb (get o j).
-Proof. Admitted.
+Proof.
+  intros v o j. unfold vsub. rewrite get_words, nth_zip_with.
+  destruct (Nat.ltb_spec (N.to_nat (j / 32)) (length (words v))) as [La|Ga].
+  - destruct (Nat.ltb_spec (N.to_nat (j / 32)) (length (words o))) as [Lb|Gb].
+    + rewrite N.land_spec, testbit_not32_mod. reflexivity.
+    + rewrite (get_over o j Gb). cbn [negb]. rewrite andb_true_r. reflexivity.
+  - rewrite (get_over v j Ga), N.bits_0. reflexivity.
+Qed.
 
 (* ---- binary operations under the asserted preconditions ---- *)
+Lemma wf_get_pre_false : forall v j, svob_wf v -> get_pre v j = false -> vsize v <= j.
+Proof.
+  intros v j [_ Hc] Hp. rewrite get_pre_cap in Hp. apply N.ltb_ge in Hp. lia.
+Qed.
+
 Lemma get_vor : forall v o j,
   svob_wf v -> no_excess o -> or_pre v o = true ->
   get (vor v o) j = get v j || get o j.
-Proof. Admitted.
+Proof.
+  intros v o j Hwf Hne Hpre. unfold or_pre in Hpre. apply N.leb_le in Hpre.
+  rewrite get_vor_raw. destruct (get_pre v j) eqn:Hp.
+  - rewrite andb_true_r. reflexivity.
+  - pose proof (wf_get_pre_false v j Hwf Hp) as Hj.
+    rewrite (Hne j) by lia. reflexivity.
+Qed.
 Lemma get_vand : forall v o j,
   svob_wf o -> no_excess v -> same_size_pre v o = true ->
   get (vand v o) j = get v j && get o j.
-Proof. Admitted.
+Proof.
+  intros v o j Hwf Hne Hpre. unfold same_size_pre in Hpre. apply N.eqb_eq in Hpre.
+  rewrite get_vand_raw. destruct (get_pre o j) eqn:Hp.
+  - cbn [negb]. rewrite orb_false_r. reflexivity.
+  - pose proof (wf_get_pre_false o j Hwf Hp) as Hj.
+    rewrite (Hne j) by lia. reflexivity.
+Qed.
 Lemma get_or_minus : forall v o m j,
   svob_wf v -> svob_wf m -> no_excess o -> no_excess v -> or_minus_pre v o m = true ->
   get (or_minus v o m) j = get v j || (get o j && negb (get m j)).
-Proof. Admitted.
+Proof.
+  intros v o m j Hwv Hwm Hno Hnv Hpre. unfold or_minus_pre in Hpre.
+  apply andb_true_iff in Hpre. destruct Hpre as [H1 H2].
+  apply N.eqb_eq in H1. apply N.eqb_eq in H2.
+  unfold or_minus. rewrite get_words, nth_zip_with3.
+  destruct (Nat.ltb_spec (N.to_nat (j / 32)) (length (words v))) as [La|Ga]; cbn [andb].
+  - destruct (Nat.ltb_spec (N.to_nat (j / 32)) (length (words o))) as [Lb|Gb]; cbn [andb].
+    + destruct (Nat.ltb_spec (N.to_nat (j / 32)) (length (words m))) as [Lc|Gc].
+      * rewrite N.lor_spec, N.land_spec, testbit_not32_mod. reflexivity.
+      * assert (Hp : get_pre m j = false).
+        { destruct (get_pre m j) eqn:Hp; [apply get_pre_lt in Hp; lia|reflexivity]. }
+        pose proof (wf_get_pre_false m j Hwm Hp) as Hj.
+        rewrite (Hno j) by lia. cbn [andb]. rewrite orb_false_r. reflexivity.
+    + rewrite (get_over o j Gb). cbn [andb]. rewrite orb_false_r. reflexivity.
+  - assert (Hp : get_pre v j = false).
+    { destruct (get_pre v j) eqn:Hp; [apply get_pre_lt in Hp; lia|reflexivity]. }
+    pose proof (wf_get_pre_false v j Hwv Hp) as Hj.
+    rewrite (Hno j) by lia. cbn [andb]. rewrite orb_false_r. reflexivity.
+Qed.
 
 (* ---- ids at or above the size are never introduced ---- *)
+(* no_excess *)
 Lemma no_excess_alloc : forall n, no_excess (alloc n).
-Proof. Admitted.
+Proof. intros n i _. apply get_alloc. Qed.
 Lemma no_excess_alloc_with_capacity : forall n c, no_excess (alloc_with_capacity n c).
-Proof. Admitted.
+Proof. intros n c i _. apply get_alloc_with_capacity. Qed.
 Lemma no_excess_set : forall v i b,
   no_excess v -> i < vsize v -> set_pre v i = true -> no_excess (set v i b).
-Proof. Admitted.
+Proof.
+  intros v i b Hne Hi Hpre j Hj. rewrite vsize_set in Hj. rewrite get_set by exact Hpre.
+  destruct (N.eqb_spec j i) as [E|NE]; [lia|]. apply Hne; exact Hj.
+Qed.
 Lemma no_excess_allow_range : forall v s e,
   svob_wf v -> no_excess v -> allow_range_pre v s e = true -> no_excess (allow_range v s e).
-Proof. Admitted.
+Proof.
+  intros v s e Hwf Hne Hpre j Hj.
+  assert (Hsz : vsize (allow_range v s e) = vsize v).
+  { unfold allow_range. destruct (e <? s); [reflexivity|]. cbv zeta.
+    destruct (s / 32 =? e / 32); reflexivity. }
+  rewrite Hsz in Hj. rewrite get_allow_range by assumption.
+  rewrite (Hne j Hj). unfold allow_range_pre in Hpre. apply N.ltb_lt in Hpre.
+  cbn [orb]. destruct (N.leb_spec j e) as [L|G]; [lia|]. apply andb_false_r.
+Qed.
 Lemma no_excess_negated : forall v, svob_wf v -> no_excess (negated v).
-Proof. Admitted.
+Proof.
+  intros v Hwf j Hj. unfold negated in Hj. rewrite vsize_ceb in Hj. cbn [vsize] in Hj.
+  rewrite get_negated by exact Hwf. destruct (N.ltb_spec j (vsize v)); [lia|reflexivity].
+Qed.
 Lemma no_excess_vor : forall v o,
   svob_wf v -> no_excess v -> no_excess o -> or_pre v o = true -> no_excess (vor v o).
-Proof. Admitted.
+Proof.
+  intros v o Hwf Hnv Hno Hpre j Hj. cbn [vor vsize] in Hj.
+  unfold or_pre in Hpre. apply N.leb_le in Hpre.
+  rewrite get_vor_raw, (Hnv j Hj), (Hno j) by lia. reflexivity.
+Qed.
 Lemma no_excess_vand : forall v o, no_excess v -> no_excess (vand v o).
-Proof. Admitted.
+Proof.
+  intros v o Hnv j Hj. cbn [vand vsize] in Hj. rewrite get_vand_raw, (Hnv j Hj). reflexivity.
+Qed.
 Lemma no_excess_vsub : forall v o,
   no_excess v -> no_excess (vsub v o).
-Proof. Admitted.
+Proof.
+  intros v o Hnv j Hj. cbn [vsub vsize] in Hj. rewrite get_vsub_raw, (Hnv j Hj). reflexivity.
+Qed.
 
 (* ---- queries ---- *)
+(* ---- queries ---- *)
+Lemma filter_map_comm : forall {A B} (f : A -> B) p l,
+  filter p (map f l) = map f (filter (fun x => p (f x)) l).
+Proof.
+  intros A B f p l; induction l as [|x l IH]; cbn [map filter]; [reflexivity|].
+  destruct (p (f x)); cbn [map]; rewrite IH; reflexivity.
+Qed.
+
+Lemma find_map : forall {A B} (f : A -> B) p l,
+  find p (map f l) = option_map f (find (fun x => p (f x)) l).
+Proof.
+  intros A B f p l; induction l as [|x l IH]; cbn [map find]; [reflexivity|].
+  destruct (p (f x)); [reflexivity|exact IH].
+Qed.
+
+Lemma find_app : forall {A} (p : A -> bool) l1 l2,
+  find p (l1 ++ l2) = match find p l1 with Some x => Some x | None => find p l2 end.
+Proof.
+  intros A p l1 l2; induction l1 as [|x l1 IH]; cbn [app find]; [reflexivity|].
+  destruct (p x); [reflexivity|exact IH].
+Qed.
+
+Lemma find_ext_in : forall {A} (f g : A -> bool) l,
+  (forall a, In a l -> f a = g a) -> find f l = find g l.
+Proof.
+  intros A f g l; induction l as [|x l IH]; intros H; cbn [find]; [reflexivity|].
+  rewrite (H x) by (left; reflexivity). destruct (g x); [reflexivity|].
+  apply IH. intros a Ha. apply H; right; exact Ha.
+Qed.
+
+Lemma nth_firstn_lt : forall {A} (l : list A) k i d,
+  (i < k)%nat -> nth i (firstn k l) d = nth i l d.
+Proof.
+  intros A l; induction l as [|x l IH]; intros k i d Hi.
+  - rewrite firstn_nil. reflexivity.
+  - destruct k as [|k]; [lia|]. destruct i as [|i]; cbn [firstn nth]; [reflexivity|].
+    apply IH. lia.
+Qed.
+
+(* bit i of the word list ws whose first word has word-index idx *)
+Definition wbit (ws : list N) (idx : N) (i : N) : bool :=
+  N.testbit (nth (N.to_nat (i / 32 - idx)) ws 0) (i mod 32).
+
+Lemma wbit_get : forall v i, wbit (words v) 0 i = get v i.
+Proof. intros v i; unfold wbit. rewrite N.sub_0_r. reflexivity. Qed.
+
+Lemma wbit_head : forall w ws idx i, In i (seqN (idx * 32) 32) ->
+  wbit (w :: ws) idx i = N.testbit w (i mod 32).
+Proof.
+  intros w ws idx i Hi. apply In_seqN in Hi. change (N.of_nat 32) with 32 in Hi.
+  unfold wbit. replace (N.to_nat (i / 32 - idx)) with O by dlia. reflexivity.
+Qed.
+
+Lemma wbit_tail : forall w ws idx i n, In i (seqN ((idx + 1) * 32) n) ->
+  wbit (w :: ws) idx i = wbit ws (idx + 1) i.
+Proof.
+  intros w ws idx i n Hi. apply In_seqN in Hi.
+  unfold wbit. replace (N.to_nat (i / 32 - idx)) with (S (N.to_nat (i / 32 - (idx + 1)))) by dlia.
+  reflexivity.
+Qed.
+
+Lemma seqN_word_split : forall idx n,
+  seqN (idx * 32) (32 * S n) = seqN (idx * 32) 32 ++ seqN ((idx + 1) * 32) (32 * n).
+Proof.
+  intros idx n. replace (32 * S n)%nat with (32 + 32 * n)%nat by lia.
+  rewrite seqN_app. change (N.of_nat 32) with 32. f_equal. f_equal. lia.
+Qed.
+
+Lemma seqN_word_shift : forall idx,
+  seqN (idx * 32) 32 = map (fun b => idx * 32 + b) (seqN 0 32).
+Proof. intros idx. rewrite <- seqN_shift. f_equal. lia. Qed.
+
+Lemma shift_mod32 : forall idx b, In b (seqN 0 32) -> (idx * 32 + b) mod 32 = b.
+Proof.
+  intros idx b Hb. apply In_seqN in Hb. change (N.of_nat 32) with 32 in Hb. dlia.
+Qed.
+
+Lemma word_bits_filter : forall idx w,
+  word_bits idx w = filter (fun i => N.testbit w (i mod 32)) (seqN (idx * 32) 32).
+Proof.
+  intros idx w. unfold word_bits. rewrite seqN_word_shift, filter_map_comm. apply f_equal.
+  apply filter_ext_in. intros b Hb. rewrite shift_mod32 by exact Hb. reflexivity.
+Qed.
+
+Lemma words_bits_filter : forall ws idx,
+  words_bits ws idx = filter (wbit ws idx) (seqN (idx * 32) (32 * length ws)).
+Proof.
+  induction ws as [|w ws IH]; intros idx.
+  - cbn [length]. rewrite Nat.mul_0_r. reflexivity.
+  - cbn [words_bits length]. rewrite seqN_word_split, filter_app. f_equal.
+    + rewrite word_bits_filter. apply filter_ext_in. intros i Hi.
+      symmetry. apply wbit_head; exact Hi.
+    + rewrite IH. apply filter_ext_in. intros i Hi.
+      symmetry. eapply wbit_tail; exact Hi.
+Qed.
+
+Lemma cap_bits_nat : forall v, N.to_nat (cap_bits v) = (32 * length (words v))%nat.
+Proof. intros v; unfold cap_bits, nwords, lenN. lia. Qed.
+
 Lemma to_list_spec : forall v,
   svob_wf v -> to_list v = filter (get v) (seqN 0 (N.to_nat (vsize v))).
-Proof. Admitted.
+Proof.
+  intros v [_ Hc]. unfold cap_bits, nwords, lenN in Hc. unfold to_list. cbv zeta.
+  replace (N.to_nat (vsize v)) with
+    (32 * N.to_nat (vsize v / 32) + N.to_nat (vsize v - vsize v / 32 * 32))%nat by dlia.
+  rewrite seqN_app, filter_app. f_equal.
+  - rewrite words_bits_filter. rewrite firstn_length_le by dlia.
+    change (0 * 32) with 0. apply filter_ext_in. intros i Hi. apply In_seqN in Hi.
+    unfold wbit. rewrite N.sub_0_r, get_unfold. rewrite nth_firstn_lt by dlia. reflexivity.
+  - f_equal. f_equal. lia.
+Qed.
 Lemma iter_list_spec : forall v,
   Forall (fun w => w < 2 ^ 32) (words v) ->
   iter_list v = filter (get v) (seqN 0 (N.to_nat (cap_bits v))).
-Proof. Admitted.
+Proof.
+  intros v _. unfold iter_list. rewrite words_bits_filter, cap_bits_nat.
+  change (0 * 32) with 0. apply filter_ext. intros i. apply wbit_get.
+Qed.
+Lemma word_zero : forall w, w < 2 ^ 32 ->
+  (forall b, b < 32 -> N.testbit w b = false) -> w = 0.
+Proof.
+  intros w Hw Hb. apply N.bits_inj. intros k. rewrite N.bits_0.
+  destruct (N.lt_ge_cases k 32) as [L|G]; [apply Hb; exact L|].
+  apply (proj1 (lt32_bits w) Hw); exact G.
+Qed.
+
+Lemma find_word : forall w ws idx,
+  find (wbit (w :: ws) idx) (seqN (idx * 32) 32) =
+  option_map (fun b => idx * 32 + b) (find (N.testbit w) (seqN 0 32)).
+Proof.
+  intros w ws idx.
+  rewrite (find_ext_in _ (fun i => N.testbit w (i mod 32))) by (intros i Hi; apply wbit_head; exact Hi).
+  rewrite seqN_word_shift, find_map. apply f_equal.
+  apply find_ext_in. intros b Hb. rewrite shift_mod32 by exact Hb. reflexivity.
+Qed.
+
+Lemma find_testbit_0 : forall l, find (N.testbit 0) l = None.
+Proof.
+  induction l as [|x l IH]; cbn [find]; [reflexivity|]. rewrite N.bits_0. exact IH.
+Qed.
+
+Lemma first_nonzero_find : forall ws idx,
+  Forall (fun w => w < 2 ^ 32) ws ->
+  first_nonzero ws idx = find (wbit ws idx) (seqN (idx * 32) (32 * length ws)).
+Proof.
+  induction ws as [|w ws IH]; intros idx HF.
+  - cbn [length]. rewrite Nat.mul_0_r. reflexivity.
+  - inversion HF as [|w' ws' Hw HF']; subst.
+    cbn [first_nonzero length]. rewrite seqN_word_split, find_app, find_word.
+    destruct (N.eqb_spec w 0) as [E|NE].
+    + subst w. rewrite find_testbit_0. cbn [option_map].
+      rewrite IH by exact HF'. apply find_ext_in. intros i Hi.
+      symmetry. eapply wbit_tail; exact Hi.
+    + unfold ctz32. destruct (find (N.testbit w) (seqN 0 32)) as [c|] eqn:Hf.
+      * reflexivity.
+      * exfalso. apply NE. apply word_zero; [exact Hw|]. intros b Hb.
+        apply (find_none _ _ Hf). apply In_seqN. change (N.of_nat 32) with 32. lia.
+Qed.
+
 Lemma first_bit_set_spec : forall v,
   Forall (fun w => w < 2 ^ 32) (words v) ->
   first_bit_set v = find (get v) (seqN 0 (N.to_nat (cap_bits v))).
-Proof. Admitted.
+Proof.
+  intros v HF. unfold first_bit_set. rewrite first_nonzero_find by exact HF.
+  rewrite cap_bits_nat. change (0 * 32) with 0.
+  apply find_ext_in. intros i _. apply wbit_get.
+Qed.
+Lemma lenN_word_bits : forall idx w, lenN (word_bits idx w) = popcount32 w.
+Proof. intros idx w; unfold popcount32, word_bits, lenN. rewrite map_length. reflexivity. Qed.
+
+Lemma num_set_fold : forall ws acc idx,
+  fold_left (fun acc w => acc + popcount32 w) ws acc = acc + lenN (words_bits ws idx).
+Proof.
+  induction ws as [|w ws IH]; intros acc idx; cbn [fold_left words_bits].
+  - unfold lenN; cbn [length]. lia.
+  - rewrite (IH _ (idx + 1)). rewrite <- (lenN_word_bits idx w).
+    unfold lenN. rewrite app_length. lia.
+Qed.
+
 Lemma num_set_spec : forall v,
   Forall (fun w => w < 2 ^ 32) (words v) ->
   num_set v = lenN (filter (get v) (seqN 0 (N.to_nat (cap_bits v)))).
-Proof. Admitted.
+Proof.
+  intros v HF. rewrite <- iter_list_spec by exact HF.
+  unfold num_set, iter_list. rewrite (num_set_fold _ 0 0). reflexivity.
+Qed.
 Lemma is_zero_spec : forall v,
   Forall (fun w => w < 2 ^ 32) (words v) ->
   is_zero v = true <-> (forall j, get v j = false).
-Proof. Admitted.
+Proof.
+  intros v HF. unfold is_zero. rewrite forallb_forall. split.
+  - intros H j. rewrite get_unfold.
+    destruct (nth_in_or_default (N.to_nat (j / 32)) (words v) 0) as [Hin|Hd].
+    + apply H in Hin. apply N.eqb_eq in Hin. rewrite Hin. apply N.bits_0.
+    + rewrite Hd. apply N.bits_0.
+  - intros H x Hx. apply N.eqb_eq.
+    rewrite Forall_forall in HF. apply word_zero; [apply HF; exact Hx|].
+    intros b Hb. destruct (In_nth _ _ 0 Hx) as [n [Hn Hnth]].
+    specialize (H (N.of_nat n * 32 + b)). rewrite get_unfold in H.
+    replace (N.to_nat ((N.of_nat n * 32 + b) / 32)) with n in H by dlia.
+    replace ((N.of_nat n * 32 + b) mod 32) with b in H by dlia.
+    rewrite Hnth in H. exact H.
+Qed.
+Lemma nth_rev_strip : forall r k,
+  nth k (rev (strip_zeros_rev r)) 0 = nth k (rev r) 0.
+Proof.
+  induction r as [|w r IH]; intros k; [reflexivity|].
+  cbn [strip_zeros_rev]. destruct (N.eqb_spec w 0) as [E|NE]; [|reflexivity].
+  subst w. rewrite IH. cbn [rev].
+  destruct (Nat.lt_ge_cases k (length (rev r))) as [L|G].
+  - rewrite app_nth1 by exact L. reflexivity.
+  - rewrite (nth_overflow (rev r)) by exact G. rewrite app_nth2 by exact G.
+    destruct (k - length (rev r))%nat as [|[|m]]; reflexivity.
+Qed.
+
 Lemma get_trim_trailing_zeros : forall v j, get (trim_trailing_zeros v) j = get v j.
-Proof. Admitted.
+Proof.
+  intros v j. unfold trim_trailing_zeros. cbv zeta.
+  destruct (Nat.eqb _ _); [reflexivity|].
+  rewrite get_words, get_unfold, nth_rev_strip, rev_involutive. reflexivity.
+Qed.
